@@ -108,7 +108,7 @@ enum Expected {
 }
 
 /// Mutators shared by ObservableVector and ObservableVectorTransaction.
-trait VecLike {
+pub(super) trait VecLike {
     fn snapshot(&self) -> Vec<V>;
     fn push_back(&mut self, e: Elem);
     fn push_front(&mut self, e: Elem);
@@ -1478,7 +1478,7 @@ impl Rest {
                         self.after_producer_step(Expected::Nothing, None, &["C08"]);
                     }
                 }
-                Step::PollPreempted { j, at, ops, drop_vector } => {
+                Step::PollPreempted { j, at, ops, drop_vector, as_tx } => {
                     if self.consumers.is_empty() {
                         continue;
                     }
@@ -1488,7 +1488,7 @@ impl Rest {
                     if vec.is_none() || self.env.borrow().auditor_on || !self.consumers[j].live() {
                         self.poll_consumer(j);
                     } else {
-                        self.poll_preempted(vec, j, *at, ops, *drop_vector);
+                        self.poll_preempted(vec, j, *at, ops, *drop_vector, *as_tx);
                     }
                 }
                 Step::TxRollback | Step::TxCommit | Step::TxDrop | Step::TravEnd => {}
@@ -1503,13 +1503,14 @@ impl Rest {
 
     /// F8: one poll of consumer `j` during which, at the `at`-th preemption point inside the
     /// library's receive path, the writer executes `ops` (and possibly drops the vector).
-    fn poll_preempted(&mut self, vec: &mut Option<ObservableVector<Elem>>, j: usize, at: u8, ops: &[Step], drop_vector: bool) {
+    fn poll_preempted(&mut self, vec: &mut Option<ObservableVector<Elem>>, j: usize, at: u8, ops: &[Step], drop_vector: bool, as_tx: bool) {
         let floor = self.env.borrow().boundaries.len() - 1;
         self.env.borrow_mut().poll_floor = Some(floor);
         super::preempt::arm(super::preempt::Armed {
             countdown: at as u32,
             ops: ops.to_vec(),
             drop_vector,
+            as_tx,
             vec: vec as *mut Option<ObservableVector<Elem>>,
             env: self.env.clone(),
             fired: false,
@@ -1529,6 +1530,9 @@ impl Rest {
         self.faults_fired += 1;
         self.producer_steps += a.applied as u64;
         self.model = self.env.borrow().contents.clone();
+        if as_tx && a.applied > 0 {
+            self.count("probe.commit_inside_a_poll");
+        }
         if a.dropped {
             self.count("fault.F2_producer_dropped");
             self.count("probe.drop_inside_a_poll");
